@@ -121,6 +121,16 @@ class CliRules:
             return [(st, sym(nm))]
 
         ERRNO = ('ext', 'errno')
+        R_ = self
+
+        def m_srand(I, st, fr, n, this, args, an):
+            st.comps['seeded'] = True
+            return [(st, ('void',))]
+
+        def m_rand(I, st, fr, n, this, args, an):
+            R_.rand_calls = getattr(R_, 'rand_calls', [])
+            R_.rand_calls.append((nloc(n), bool(st.comps.get('seeded')), I.frames[-1].fn['q'] if I.frames else '?'))
+            return [(st, R(0, (1 << 31) - 1))]
 
         def m_errno_loc(I, st, fr, n, this, args, an):
             # errno is process-wide: at the start of a parse it holds whatever the previous operation left (never written here = UNINIT)
@@ -370,7 +380,7 @@ class CliRules:
         mdl.update({'scanf': m_scanf_str, 'std::basic_string::substr': m_str_sub, 'std::basic_string::find_last_of': m_file_size,
                     'std::basic_string::find': m_file_size, 'std::basic_string::rfind': m_file_size})
         mdl.update({'getopt_long': m_getopt, 'strlog': m_strlog, 'is_valid_b64': m_valid, 'base64_to_hex': m_noop_true,
-                    'hex_to_base64': m_noop_true, 'atoi': m_atoi, '__errno_location': m_errno_loc, 'strtol': m_strtol, 'strtoul': m_strtol, 'std::vector::size': m_vecsize,
+                    'hex_to_base64': m_noop_true, 'atoi': m_atoi, '__errno_location': m_errno_loc, 'rand': m_rand, 'srand': m_srand, 'strtol': m_strtol, 'strtoul': m_strtol, 'std::vector::size': m_vecsize,
                     'std::basic_string::basic_string': m_str_ctor, 'std::operator+': m_str_plus,
                     'std::basic_string::operator=': m_str_assign, 'std::basic_string::operator+=': m_str_append, 'std::basic_string::append': m_str_append,
                     'std::basic_string::clear': m_str_clear, 'std::basic_string::c_str': m_str_cstr,
@@ -445,6 +455,14 @@ class CliRules:
                     '%s is read before anything was stored in it since it was allocated' % fld))
         rec.ob('R15.f', 'R15.f@%s::pack-fields-written-before-read' % fkey(f), not ur, where,
                'every scalar read in the parser sees a value stored since the allocation: %s' % ('yes' if not ur else 'NO'))
+        # ---- R18.s the seed buffer and the random key are drawn from a generator that this parse has seeded: an unseeded rand()
+        #      gives every process the same 256 seed bytes, hence the same IVs for every file
+        rc = getattr(self, 'rand_calls', [])
+        unseeded = sorted({(w, fn) for w, sd, fn in rc if not sd})
+        for w, fn in unseeded:
+            rec.ob('R18.s', 'R18.s@%s::rand-after-srand' % fn, False, w, 'rand() is reached on a path of the parse on which srand() has not been called: the values are the same in every process')
+        rec.ob('R18.s', 'R18.s@%s::generator-seeded' % fkey(f), not unseeded, where,
+               'every rand() call of the parse (%d evaluation(s)) comes after srand() on its path' % len(rc))
         # ---- R17.a required fields per mode at every successful return
         need = {ord('e'): ('out', 'key'), ord('d'): ('out', 'key'), ord('v'): ('key',), ord('E'): ('out', 'key'), ord('D'): ('out', 'key')}
         nret = 0
